@@ -13,7 +13,7 @@ from __future__ import annotations
 
 import ast
 
-from .loader import AnalysisError, norm
+from .loader import AnalysisError, norm, is_logging_stmt
 
 
 class _Ret(Exception):
@@ -187,6 +187,8 @@ class DictInterp:
         for st in stmts:
             if isinstance(st, ast.Return):
                 raise _Ret(self.ev(st.value) if st.value is not None else None)
+            if is_logging_stmt(st):
+                continue
             if isinstance(st, ast.Expr):
                 if isinstance(st.value, ast.Constant):
                     continue
